@@ -642,9 +642,13 @@ fn check_dis(ctx: &mut Ctx, parts: &[&Var], start_idx: usize) {
   let wrapped = (start as usize) + bytes.len() > 0x10000;
   let mut cls = 0x3000u64 + (start_idx as u64) * 2 + wrapped as u64;
   let mut m = 8u64;
-  for p in parts.iter() {
+  for p in parts.iter().take(3) {
     cls += (p.class as u64 + 1) * m;
     m *= 8;
+  }
+  if parts.len() > 3 {
+    // long runs: (class of the first two instructions, length bucket)
+    cls += 0x100000 * (1 + (parts.len() as u64).min(1024).next_power_of_two().trailing_zeros() as u64);
   }
   ctx.class(cls);
   let got = guard(|| disassemble(start, &bytes).iter().map(|i| i.to_string()).collect::<Vec<String>>());
@@ -786,6 +790,29 @@ fn operands_case(ctx: &mut Ctx, case: u64, thorough: bool) {
   }
 }
 
+/// runs: one instruction variant repeated n times, alone and behind each representative (a
+/// listing is usually hundreds of instructions long, and fill bytes repeat)
+fn runs_case(w: &DisWorld, ctx: &mut Ctx, case: u64, thorough: bool) {
+  let v = &w.vars[case as usize];
+  let lens: Vec<usize> = if thorough { (4..=40).chain([64usize, 100, 255, 256, 257, 1000].iter().cloned()).collect() } else { vec![15, 16, 17, 64, 257] };
+  for n in lens.iter() {
+    let mut parts: Vec<&Var> = Vec::with_capacity(n + 1);
+    for _ in 0..*n {
+      parts.push(v);
+    }
+    for s in [0usize, 2] {
+      check_dis(ctx, &parts, s);
+    }
+    for ri in w.reps.iter() {
+      parts.insert(0, &w.vars[*ri]);
+      for s in [0usize, 2] {
+        check_dis(ctx, &parts, s);
+      }
+      parts.remove(0);
+    }
+  }
+}
+
 /// triples over representatives only: case = index of the first representative
 fn triples_rep_case(w: &DisWorld, ctx: &mut Ctx, case: u64) {
   let a = &w.vars[w.reps[case as usize]];
@@ -895,6 +922,15 @@ pub fn run(tier: &str) -> i32 {
   let c3 = rep.add_stage("disassemble-triples", &format!("every triple over {} representatives (>= 2 per length class) x 4 start addresses", nreps), r);
   for i in 0..cd.len() {
     cd[i] += c3[i];
+  }
+  let r = run_pool(nvars, &PoolOpts { chunk: 4, bitmap_bits: 1 << 16, samples_per_child: 0, ..PoolOpts::default() }, |_| dis_world(), |w, case, ctx| runs_case(w, ctx, case, thorough), crash("disassemble-runs"));
+  let c5 = rep.add_stage(
+    "disassemble-runs",
+    &format!("every one of the {} instruction variants repeated n times, n in {}, alone and behind each of the {} representatives, at 0x0000 and 0xFFFD", nvars, if thorough { "4..40, 64, 100, 255, 256, 257, 1000" } else { "{15, 16, 17, 64, 257}" }, nreps),
+    r,
+  );
+  for i in 0..cd.len() {
+    cd[i] += c5[i];
   }
   if thorough {
     let r = run_pool(nvars, &PoolOpts { chunk: 1, bitmap_bits: 1 << 16, ..PoolOpts::default() }, |_| dis_world(), |w, case, ctx| triples_wide_case(w, ctx, case), crash("disassemble-triples-wide"));
